@@ -82,9 +82,11 @@ Expect(calls) ==
         [kind |-> "response", sent |-> {Tag("filter", c)}, bk |-> {0}, closed |-> {TRUE, FALSE}]
 
 \* does an observation satisfy Layer P ?
-SentOK(e, s) == e.kind = "gray" \/ s \in e.sent \/ (AnyOne \in e.sent /\ s # "none")
+\* "mixed": status line / headers of one response followed by body bytes of another one (e.g. a
+\* redirect carrying the backend's body).  Never allowed, whatever the plan - not even in gray plans.
+SentOK(e, s) == s # "mixed" /\ (e.kind = "gray" \/ s \in e.sent \/ (AnyOne \in e.sent /\ s # "none"))
 Satisfies(e, s, b, cl) ==
-    e.kind = "gray" \/ (SentOK(e, s) /\ b \in e.bk /\ cl \in e.closed)
+    SentOK(e, s) /\ (e.kind = "gray" \/ (b \in e.bk /\ cl \in e.closed))
 
 \* the plain behaviour visits every point (H only on TLS connections)
 VisitsAll(calls, tls) ==
